@@ -89,7 +89,7 @@ impl Rtt {
     /// duration = (smoothed_rtt + max(4 * rttvar, kGranularity))
     ///     * (2 ^ pto_count)
     fn base_pto(&self, pto_count: u32) -> Duration {
-        self.smoothed_rtt + std::cmp::max(4 * self.rttvar, GRANULARITY) * (1 << pto_count)
+        (self.smoothed_rtt + std::cmp::max(4 * self.rttvar, GRANULARITY)) * (1 << pto_count)
     }
 
     fn try_backoff_rtt(&mut self) {
